@@ -2,7 +2,7 @@
    Statements only; proofs are in Proofs/ContStoreProofs.v and Proofs/LogProofs.v. *)
 From RipV Require Import Base.Prelude Model.Frames Model.Log Model.ContStore Model.LogBytes
   Model.CapEffects Model.SidecarInv Proofs.LogProofs Proofs.ContStoreProofs Proofs.LogBytesProofs
-  Proofs.CapEffectsProofs Proofs.SidecarInvProofs Model.C02Cases Proofs.C02CasesProofs Gen.LogOpen Gen.Effects.
+  Proofs.CapEffectsProofs Proofs.SidecarInvProofs Model.C02Cases Proofs.C02CasesProofs Model.NoopPlan Proofs.NoopPlanProofs Gen.LogOpen Gen.Effects.
 
 (* one micro-step of any actor running ANY program (well-formed or not) in ANY state leaves the
    log as it was or adds exactly one frame at the end *)
@@ -245,3 +245,63 @@ Print Assumptions c02_sidecars_only_for_ids_in_the_log_extended_histories.
 Example c02_extended_history_demo :
   fst (run_calls2 empty_state demo2_history) = [1; 2; 3; 6; 6; 6; 6; 6; 6].
 Proof. exact demo2. Qed.
+
+(* ---------- "nothing to do" (Model/NoopPlan.v) ----------
+   The planner of compaction-auto / compaction-auto-schedule as the code runs it (cut points of the stride, newest
+   32; per cut point the "latest checkpoint at or before" lookup through the checkpoint cache <id>.comp.v1.jsonl:
+   absent -> rebuilt and scanned, unparsable -> the caller's fallback loop over the replayed stream, parsable ->
+   answered from its lines as found) against the judgement of the truth log alone (`unplanned`: cut points no
+   checkpoint frame sits on).  For every thread, stride, max_new and every cache state that is absent, unparsable
+   or the projection of the stream: the code plans exactly the first max_new unplanned cut points ... *)
+Theorem c02_planner_agrees_with_the_truth_log : forall (t : pthread) (cc : comp_cache) (stride : N) (max_new : nat),
+  coherent t cc -> planned false t cc stride max_new = firstn max_new (unplanned t stride).
+Proof. exact planned_coherent. Qed.
+Print Assumptions c02_planner_agrees_with_the_truth_log.
+
+(* ... so when the truth log leaves nothing to do, auto and auto-schedule (with whatever dry_run, execute,
+   block_on_inflight) are silent invocations: they add nothing, in every state of the store model *)
+Theorem c02_nothing_to_do_adds_nothing :
+  forall (t : pthread) (cc : comp_cache) (stride : N) (max_new : nat) (cp : cap) (f : cfacts) (c : N) (st : state),
+  coherent t cc -> unplanned t stride = [] ->
+  cp = CapAuto \/ cp = CapAutoSchedule ->
+  cf_planned f = length (planned false t cc stride max_new) ->
+  s_log (exec (cap_prog cp c f) st) = s_log st.
+Proof. exact nothing_to_do_is_silent. Qed.
+Print Assumptions c02_nothing_to_do_adds_nothing.
+
+(* FALSE for a cache file that parses but is not the projection - the code answers from it as found (open
+   findings S4c-noop-appends: zero bytes; S4-noop-appends: re-created by the last append): 6 messages, checkpoints
+   on 2, 4, 6, nothing to do, yet cut points are planned *)
+Theorem c02_nothing_to_do_zero_length_cache_refuted :
+  unplanned w_thread6 2 = [] /\ planned false w_thread6 (CLines []) 2 32 = [6; 4; 2].
+Proof. exact zero_length_cache_refuted. Qed.
+Print Assumptions c02_nothing_to_do_zero_length_cache_refuted.
+Theorem c02_nothing_to_do_partial_cache_refuted :
+  unplanned w_thread6 2 = [] /\ planned false w_thread6 (CLines [(6, 9)]) 2 32 = [4; 2].
+Proof. exact partial_cache_refuted. Qed.
+Print Assumptions c02_nothing_to_do_partial_cache_refuted.
+
+(* the fallback loop with `>=` instead of `>` (seeded change C02-6): indistinguishable while the cache answers,
+   for every thread ... *)
+Theorem c02_skip_eq_fallback_hidden_while_the_cache_answers :
+  forall (t : pthread) (cc : comp_cache) (stride : N) (max_new : nat),
+  cc = CAbsent \/ cc = CLines (t_cps t) ->
+  planned true t cc stride max_new = planned false t cc stride max_new.
+Proof. exact skip_eq_fallback_hidden. Qed.
+Print Assumptions c02_skip_eq_fallback_hidden_while_the_cache_answers.
+
+(* ... and it plans every covered cut point again once the cache file is unparsable *)
+Theorem c02_skip_eq_fallback_refuted :
+  unplanned w_thread6 2 = [] /\ planned true w_thread6 CUnparsable 2 32 = [6; 4; 2]
+  /\ planned false w_thread6 CUnparsable 2 32 = [].
+Proof. exact skip_eq_fallback_refuted. Qed.
+Print Assumptions c02_skip_eq_fallback_refuted.
+
+(* non-vacuity: a thread with work left (unparsable cache, stride 2; parsable cache, stride 1, max_new 2),
+   the window of 32 on 70 messages, strides u64::MAX and 0 *)
+Example c02_planner_demo :
+  planned false {| t_msgs := [1; 2; 3; 4; 5]; t_cps := [(4, 6)] |} CUnparsable 2 32 = [2]
+  /\ planned false {| t_msgs := [1; 2; 3; 4; 5]; t_cps := [(4, 6)] |} (CLines [(4, 6)]) 1 2 = [5; 3]
+  /\ length (cut_seqs {| t_msgs := map N.of_nat (List.seq 1 70); t_cps := [] |} 2) = 32%nat
+  /\ cut_seqs w_thread6 18446744073709551615 = [] /\ cut_seqs w_thread6 0 = [].
+Proof. exact planner_demo. Qed.
